@@ -158,6 +158,16 @@ func runChild(dir, mode, tag string, req childReq, timeout time.Duration) (lines
 		}
 		if started == "" {
 			started = "?"
+			if strings.Contains(out.String(), "WARNING: DATA RACE") {
+				started = "!race"
+				tail = out.String()
+				if i := strings.Index(tail, "WARNING: DATA RACE"); i >= 0 {
+					tail = tail[i:]
+				}
+				if len(tail) > 4000 {
+					tail = tail[:4000]
+				}
+			}
 		}
 		return lines, started, err.Error() + "\n" + tail
 	}
@@ -208,7 +218,11 @@ func runBatches[C any](dir, mode string, cases []C, idOf func(C) string, mk func
 				if idx < 0 {
 					mu.Lock()
 					var zero C
-					onCrash(zero, "child failed outside any case: "+tail)
+					if crashed == "!race" {
+						onCrash(zero, "the race detector reported a data race during this batch: "+tail)
+					} else {
+						onCrash(zero, "child failed outside any case: "+tail)
+					}
 					mu.Unlock()
 					return
 				}
@@ -347,9 +361,19 @@ func TestShutdown(t *testing.T) {
 }
 
 func firstLine(s string) string {
-	for _, l := range strings.Split(s, "\n") {
+	lines := strings.Split(s, "\n")
+	for i, l := range lines {
 		if strings.HasPrefix(l, "panic:") || strings.HasPrefix(l, "fatal error:") {
 			return l
+		}
+		if strings.HasPrefix(l, "WARNING: DATA RACE") {
+			// name the first nexus frame of the racing access
+			for _, f := range lines[i:] {
+				if strings.Contains(f, "gammazero/nexus") && strings.HasSuffix(strings.TrimSpace(f), ")") {
+					return "DATA RACE at " + strings.TrimSpace(f)
+				}
+			}
+			return "DATA RACE (see impl)"
 		}
 	}
 	if i := strings.Index(s, "\n"); i >= 0 {
@@ -482,10 +506,14 @@ func TestOrder(t *testing.T) {
 		}
 	}
 	shapes := map[string]bool{}
+	waitSeen := map[waitSite]bool{}
 	onLine := func(l []byte) {
 		var r OrderResult
 		if json.Unmarshal(l, &r) != nil {
 			return
+		}
+		for _, ws := range r.WaitSites {
+			waitSeen[ws] = true
 		}
 		sum.Evaluations++
 		for k, v := range r.Stats {
@@ -512,5 +540,21 @@ func TestOrder(t *testing.T) {
 		func(b []OrderCase) childReq { return childReq{Order: b} }, 20*time.Minute, onLine, onCrash)
 	sum.DistinctNontrivial = len(shapes)
 	sum.TracesValidated = sum.Evaluations
+	// runtime cross-check of gen's channel-operation table
+	if table, err := tableWaitSites(); err != nil {
+		sum.Notes = append(sum.Notes, "cross-check of the channel-operation table skipped: "+err.Error())
+	} else {
+		missing := 0
+		for ws := range waitSeen {
+			sum.Count("blocked_site_seen")
+			if !table[ws] {
+				missing++
+				sum.Disagreements = append(sum.Disagreements, hcommon.Disagreement{Input: ws, Impl: "goroutine blocked there in a dump",
+					Model: "table (c) of Nexus/Gen/Sites.lean has no such blocking operation", SpecViolation: false,
+					Detail: fmt.Sprintf("order: gen's channel-operation table is incomplete: a goroutine was seen blocked in %s (%s)", ws.Fn, ws.Kind)})
+			}
+		}
+		sum.Notes = append(sum.Notes, fmt.Sprintf("goroutine dumps: %d distinct blocked (function, kind) sites of router/transport/wamp seen, %d not in table (c)", len(waitSeen), missing))
+	}
 	finishSummary(sum)
 }
